@@ -1,4 +1,4 @@
-"""python3 -m bgcheck selftest [--only NAME] [--jobs N] [--seeded]
+"""python3 -m bgcheck selftest [--only NAME] [--jobs N] [--seeded] [--all-props] [--neutral-dir DIR] [--props C01,C02]
 
 Tests the checker both ways on scratch copies of /repo (never on /repo itself):
   selftest/break/<name>.diff    one rule instance broken, still compiling and passing the test suite;
@@ -75,6 +75,11 @@ def main(args):
         elif args[i] == '--all-props':
             allprops = True
             i += 1
+        elif args[i] == '--props':
+            # restrict the neutral cases to these properties (e.g. after a change to the rules of a few properties)
+            global ALL
+            ALL = args[i + 1].split(',')
+            i += 2
         elif args[i] == '--neutral-dir':
             extra_neutral = args[i + 1]
             i += 2
